@@ -116,6 +116,17 @@ func runtimeOverlay(dir string) (map[string]string, error) {
 	if err != nil {
 		return nil, err
 	}
+	// Map iteration order and map hash seeds get a stream of their own, and a new
+	// M (created at load-dependent moments: sysmon hand-offs, blocking system
+	// calls) must not draw from a stream that simulated code observes.
+	s, err = mustReplace(s, "func maps_rand() uint64 {\n\treturn rand()\n", "func maps_rand() uint64 {\n\tif simDeterministic {\n\t\treturn simRand64(&simMapState)\n\t}\n\treturn rand()\n", "map rand stream")
+	if err != nil {
+		return nil, err
+	}
+	s, err = mustReplace(s, "\tmp.cheaprand = rand()\n", "\tmp.cheaprand = seed[0] | 1\n", "new M does not draw from the sim stream")
+	if err != nil {
+		return nil, err
+	}
 	if err := os.WriteFile(filepath.Join(od, "rand.go"), []byte(s), 0o644); err != nil {
 		return nil, err
 	}
@@ -143,6 +154,10 @@ func runtimeOverlay(dir string) (map[string]string, error) {
 	for _, pt := range []struct{ file, old, new, what string }{
 		{"select.go", "j := cheaprandn(uint32(norder + 1))", "j := simRandn(&simSelectState, uint32(norder+1))", "select order"},
 		{"time.go", "t.rand = cheaprand()", "t.rand = simTimerOrd()", "timer tie order"},
+		// sync.Mutex switches to starvation mode (direct hand-off) when a waiter has
+		// waited for more than 1 ms of *wall* time, which changes who gets the lock
+		// next. With a constant clock the mutex always stays in normal mode.
+		{"sema.go", "func internal_sync_nanotime() int64 {\n\treturn nanotime()\n", "func internal_sync_nanotime() int64 {\n\treturn 1\n", "mutex starvation clock"},
 	} {
 		b, err := os.ReadFile(filepath.Join(rt, pt.file))
 		if err != nil {
@@ -164,7 +179,7 @@ import "internal/runtime/atomic"
 
 const simDeterministic = true
 
-var simRandState, simSelectState uint64
+var simRandState, simSelectState, simMapState uint64
 var simTimerCtr uint32
 
 //go:nosplit
